@@ -346,6 +346,10 @@ func (p *eparser) postfix() Expr {
 			p.next()
 			var args []Expr
 			for !p.isOp(")") {
+				if id, ok := x.(*EIdent); ok && id.Name == "local" && len(args) == 1 {
+					args = append(args, &EIdent{p.typ()})
+					break
+				}
 				args = append(args, p.iff())
 				if p.isOp(",") {
 					p.next()
